@@ -21,6 +21,16 @@ def headers_of(prog, outs):
     return hs
 
 
+def defining_of(prog, outs):
+    d = {}
+    for s, o in zip(prog, outs):
+        if s['op'] == 'newfile':
+            d = {}
+        if s['op'] == 'origin' and o[0] == 'ok' and s['lf'] not in d:
+            d[s['lf']] = s['name']['v']
+    return [d.get(i) for i in range(max(d) + 1)] if d else []
+
+
 def run(ctx):
     rng = ctx.rng('progs')
     n = 70 if ctx.tier == 'quick' else 800
@@ -42,7 +52,7 @@ def run(ctx):
         ctx.count('K-order', key=(k, len(d.records)))
         ctx.stat('K-order', 'records', len(d.records))
         ctx.stat('K-order', 'logical_files', len(d.logical_files()))
-        judge.check_order(ctx, d, det, headers_of(prog, r['outs']))
+        judge.check_order(ctx, d, det, headers_of(prog, r['outs']), defining_of(prog, r['outs']))
         judge.check_identity_refs(ctx, d, det, check_origins=False, check_unique=False)
         if k % 13 == 0:
             ctx.sample({'stream': 'K-order', 'flavor': flavor,
